@@ -129,6 +129,14 @@ def apply_rewrites(reply, rewrites, ctx):
             b = bytes.fromhex(spec)
             if _set_bytes(tree, "usm-priv", b):
                 label["salt_len"] = len(b)
+        elif field == "cipher-trim":
+            # drop the last n octets of the ciphertext (before signing): the encrypted payload
+            # is no longer a whole scoped PDU / a whole number of cipher blocks
+            if sec is not None and sec.get("priv_alg") and sec.get("encrypt", True):
+                sec["cipher_trim"] = spec
+                label["cipher_trimmed"] = spec
+                label["wf"] = None
+                label["why"] = "cipher-trimmed"
         elif field == "pdu-type":
             p = snmp.find(tree, "pdu")
             p.tag = spec
